@@ -242,6 +242,56 @@ def make_mem_models():
     def m_opt_map_clone(ex, st, args, callee, ty):
         return args[0]
 
+    def m_string_add(ex, st, args, callee, ty):
+        return SStr(sstr_of(ex, st, args[0]).chars + sstr_of(ex, st, args[1]).chars)
+
+    def m_slice_iter(ex, st, args, callee, ty):
+        return VecM([x for x in _obj(ex, st, args[0]).items])
+
+    def m_join(ex, st, args, callee, ty):
+        parts = [sstr_of(ex, st, x).chars for x in _obj(ex, st, args[0]).items]
+        sep = sstr_of(ex, st, args[1]).chars
+        out = []
+        for i, p in enumerate(parts):
+            if i:
+                out += sep
+            out += p
+        return SStr(out)
+
+    class LinesM(VecM):
+        pass
+
+    def m_bufreader_new(ex, st, args, callee, ty):
+        return Adt("BufReader", None, None, [args[0]])
+
+    def m_lines(ex, st, args, callee, ty):
+        """BufRead::lines over a MemfsFile handle: split the remaining bytes at '\n' (a '\r' before it
+        is stripped); a final segment without terminator is a line too"""
+        br = _obj(ex, st, args[0])
+        f = _obj(ex, st, br.fields[0])
+        if not (isinstance(f, Adt) and f.ty == "MemfsFile"):
+            raise Unsupported("lines() over %r" % (f,))
+        pos, data = f.fields[0], _obj(ex, st, f.fields[1]).items
+        if not pos.concrete:
+            raise Unsupported("lines() at a symbolic position")
+        from .values import bv_bin
+        lines, cur = [], []
+        for b in data[pos.v:]:
+            if ex.decide(st, bv_bin("Eq", b, BV(8, False, 10))):
+                if cur and ex.decide(st, bv_bin("Eq", cur[-1], BV(8, False, 13))):
+                    cur = cur[:-1]
+                lines.append(cur)
+                cur = []
+            else:
+                cur.append(b)
+        if cur:
+            lines.append(cur)
+        return LinesM([Adt("Result", 0, "Ok", [SStr([BV(32, False, x.v) if x.concrete else BV(32, False, "((_ zero_extend 24) %s)" % x.smt()) for x in l])]) for l in lines])
+
+    def m_list_next(ex, st, args, callee, ty):
+        it = _obj(ex, st, args[0])
+        return opt_some(ex, it.items.pop(0)) if it.items else opt_none(ex)
+
     def m_new_uninit(ex, st, args, callee, ty):
         from .models import UninitBox
         return UninitBox()
@@ -342,6 +392,16 @@ def make_mem_models():
         (rx(r"^Vec::<.*>::is_empty$"), m_vec_is_empty),
         (rx(r"^Vec::<.*>::len$"), m_vec_len),
         (rx(r"^Vec::<.*>::clear$"), m_vec_u8_clear),
+        (rx(r"^<String as Add<&str>>::add$"), m_string_add),
+        (rx(r"^<Vec<.*> as Deref>::deref$"), lambda ex, st, args, callee, ty: ref_of(ex, st, args[0])),
+        (rx(r"^(?:core::slice::)?<impl \[[TU]\]>::iter$"), m_slice_iter),
+        (rx(r"^(?:\w+::)*<impl \[&str\]>::join::<&str>$"), m_join),
+        (rx(r"^(?:\w+::)*<impl \[String\]>::join::<&str>$"), m_join),
+        (rx(r"^BufReader::<.*>::new$"), m_bufreader_new),
+        (rx(r"^<BufReader<.*> as BufRead>::lines$"), m_lines),
+        (rx(r"^<(?:std::io::)?Lines<.*> as IntoIterator>::into_iter$"), lambda ex, st, args, callee, ty: args[0]),
+        (rx(r"^<(?:std::io::)?Lines<.*> as Iterator>::next$"), m_list_next),
+        (rx(r"^<(?:std::slice::)?Iter<'_, [TU]> as Iterator>::next$"), m_list_next),
         (rx(r"^Box::<\[.*; \d+\]>::new_uninit$"), m_new_uninit),
         (rx(r"^(?:std::boxed::)?box_assume_init_into_vec_unsafe::<.*, \d+>$"), m_into_vec),
         (rx(r"^<Option<(PathBuf|String|u32|u64|usize|bool)> as Clone>::clone$"), m_opt_clone),
